@@ -18,6 +18,11 @@ MCWins == << [lo |-> 4,  hi |-> 8,  step |-> 2],
              [lo |-> 5,  hi |-> 9,  step |-> 2],
              [lo |-> 11, hi |-> 15, step |-> 2],
              [lo |-> 1,  hi |-> 3,  step |-> 2] >>
+\* the alphabet of contribution lists ("k": the molecular absorption, "c1".."c3": continuum contributions):
+\*   1: k alone   2: one continuum AFTER k (the usual set-up)   3: one BEFORE k   4: TWO after k   5: k in the MIDDLE
+\*   6: two before k, in another relative order   7: three continuum terms, one before and two after k
+MCLists == << <<"k">>, <<"k", "c1">>, <<"c1", "k">>, <<"k", "c1", "c2">>, <<"c1", "k", "c2">>, <<"c2", "c1", "k">>,
+              <<"c3", "k", "c2", "c1">> >>
 MCTPs  == << [t |-> "node", p |-> "node"], [t |-> "between", p |-> "between"], [t |-> "above", p |-> "below"] >>
 \* Sound variants and mutants are checked in ONE run (TLC -continue).  The memo / mode mutants are refuted on the
 \* sub-alphabet 0, 1, 2, 3, 5 already under the default configuration, the latched mode without any memo, and the
@@ -26,13 +31,19 @@ MCTPs  == << [t |-> "node", p |-> "node"], [t |-> "between", p |-> "between"], [
 \* a native run, between native points) under every other one (with a memo: the reloading route "global" and the
 \* in-place route "setter", which keeps the memo).
 BaseCfg == interp = "linear" /\ route = "global" /\ extra = "none"
+\* The contribution list: the sound variants walk every list on the full grid and a native run, on a node and between
+\* nodes, under the default configuration and under a non-default scheme set in place (with and without a memo); the
+\* path mutants every list on the full grid under the default configuration.
+ListCfg == BaseCfg \/ (interp = "exp" /\ route = "setter" /\ extra = "none")
 MutantAlphabet ==
-    \/ Sound /\ (IF BaseCfg THEN tp \in {1, 2} \/ win \in {0, 1, 5}
+    \/ Sound /\ clist = 1 /\ (IF BaseCfg THEN tp \in {1, 2} \/ win \in {0, 1, 5}
                          ELSE win \in {0, 1, 5} /\ (Key = "none" \/ route \in {"global", "setter"}))
-    \/ /\ CfgRead = "both" /\ BaseCfg
+    \/ Sound /\ clist # 1 /\ BaseCfg /\ win \in {0, 1} /\ tp \in {1, 2} /\ Key = "none"
+    \/ /\ CfgRead = "both" /\ PathRead = "sum" /\ BaseCfg /\ clist = 1
        /\ win \in {0, 1, 2, 3, 5} /\ tp \in {1, 2} /\ (ModeRead = "construct" => Key = "none")
        /\ (Key \in {"size", "first", "window"} => mode = "k")
-    \/ /\ CfgMutant /\ win \in {0, 5} /\ extra = "none" /\ mode = "k"
+    \/ /\ CfgMutant /\ win \in {0, 5} /\ extra = "none" /\ mode = "k" /\ clist = 1
+    \/ /\ PathMutant /\ BaseCfg /\ win = 0 /\ tp = 1 /\ mode = "k"
 
 \* ---- export of the configuration alphabet (binding A of the configuration dimension): every class of
 \* (temperature position, pressure position) x scheme x route x extra key, with what the specification says about it
@@ -42,9 +53,16 @@ EXTPs == << [t |-> "node", p |-> "node"],    [t |-> "node", p |-> "between"],   
             [t |-> "below", p |-> "node"],   [t |-> "below", p |-> "between"],   [t |-> "below", p |-> "below"],   [t |-> "below", p |-> "above"],
             [t |-> "above", p |-> "node"],   [t |-> "above", p |-> "between"],   [t |-> "above", p |-> "below"],   [t |-> "above", p |-> "above"] >>
 EXWins == << >>
+\* ... and the alphabet of contribution lists (under the default configuration, on a node), with what the specification
+\* says about each: the twin relation holds, the path holds the sum, and which mutants the list cannot expose
 EmitCfg == /\ TLCGet("level") < 3
-           /\ (evald /\ mode = "k") =>
+           /\ clist # 1 => (BaseCfg /\ tp = 1)
+           /\ (evald /\ mode = "k" /\ clist = 1) =>
                 PrintT(<<"VEC", ToJson([t |-> TPs[tp].t, p |-> TPs[tp].p, interp |-> interp, route |-> route, extra |-> extra,
                                         twin |-> TwinEqualsXsec, schemefree |-> SchemeFree(win, tp),
                                         ng |-> NG])>>)
+           /\ (evald /\ mode = "k" /\ BaseCfg /\ tp = 1) =>
+                PrintT(<<"LST", ToJson([id |-> clist, list |-> CL, twin |-> TwinEqualsXsec, orderfree |-> OrderFree,
+                                        kfirst |-> (KPos(CL) = 1), klast |-> (KPos(CL) = Len(CL)),
+                                        ncont |-> Cardinality(Conts(CL))])>>)
 =============================================================================
